@@ -100,6 +100,11 @@ def fault_jobs() -> List[Dict[str, Any]]:
     add("config-not-mapping", rule="config: 5\n" + VALID_RULE)
     add("config-flag-wrong-type", rule="config:\n  mnemonics-full-match: 'yes'\n" + VALID_RULE)
     add("config-sections-wrong-type", rule="config:\n  sections: .text\n" + VALID_RULE)
+    add("config-style-invalid", rule="config:\n  style: Intel\n" + VALID_RULE)
+    add("config-style-wrong-type", rule="config:\n  style: 0\n" + VALID_RULE)
+    add("config-range-unquoted-hex", rule="config:\n  valid_addr_range:\n    min: 0x401000\n    max: 0x401fff\n" + VALID_RULE)
+    add("config-range-missing-bound", rule="config:\n  valid_addr_range:\n    min: '0x401000'\n" + VALID_RULE)
+    add("config-range-not-mapping", rule="config:\n  valid_addr_range: '0x401000-0x401fff'\n" + VALID_RULE)
     add("macros-wrong-type", rule="macros: 5\n" + VALID_RULE)
     add("empty-group", rule="pattern:\n  - $or: []\n")
     add("not-two-args", rule="pattern:\n  - $not:\n      - push\n      - mov\n")
@@ -109,6 +114,8 @@ def fault_jobs() -> List[Dict[str, Any]]:
     add("times-negative-min", rule="pattern:\n  - push:\n      - rbp\n    times:\n      min: -2\n      max: 1\n")
     add("times-inverted", rule="pattern:\n  - push:\n      times:\n        min: 3\n        max: 1\n")
     add("macro-undefined", rule="macros:\n  - name: '@m'\n    pattern: push\npattern:\n  - '@m'\n  - '@undefined'\n")
+    # an undefined @name when NO macro definition is supplied at all (the expander is not run then)
+    add("macro-undefined-no-definitions", rule="pattern:\n  - push\n  - '@undefined'\n")
     add("macro-name-without-at", rule="macros:\n  - name: 'm'\n    pattern: push\npattern:\n  - push\n")
     add("macro-file-missing", macros_text=[None])
     return jobs
@@ -121,6 +128,8 @@ def injection():
     env = dict(os.environ)
     env["PYTHONPATH"] = os.path.join(repo_root(), "src")
     env["PYTHONDONTWRITEBYTECODE"] = "1"
+    from vf import alpha
+    env = alpha.env_for(os.path.join(repo_root(), "src"), env)
     py = "/venv/bin/python" if os.path.exists("/venv/bin/python") else sys.executable
     p = subprocess.run([py, os.path.join(ROOT, "vf", "fault_runner.py")], input=json.dumps(jobs), text=True, capture_output=True,
                        env=env, cwd="/tmp", timeout=600)
@@ -128,6 +137,10 @@ def injection():
     if p.returncode != 0:
         return [simple_ob("fault-injection:RUN", "MasterOfPuppets", "EXC", "the fault runner completes", None, P, detail=p.stderr[-500:])]
     res = {r["id"]: r["outcome"] for r in json.loads(p.stdout)}
+    harness = [v for v in res.values() if v.startswith("harness:")]
+    if harness:
+        return [simple_ob("fault-injection:RUN", "MasterOfPuppets", "EXC", "the fault harness's call of the public entry point fits this tree", None, P,
+                          detail=harness[0])]
     for j in jobs:
         oc = res.get(j["id"], "missing")
         if j["expect"] == "raise":
